@@ -16,6 +16,8 @@
 From BU Require Import Lib.Bytes CashAddr.CashAddr Base58.Base58 Bech32.Bech32 JsonPb.JsonPb.
 From BU Require Import NoPanic.Slices NoPanic.CashAddrNP NoPanic.Base58NP NoPanic.Bech32NP JsonPb.JsonPbProofs.
 From BU Require Import Gen.Nets Address.Address Wif.Wif HD.HD NoPanic.AddressNP NoPanic.WifNP NoPanic.HDNP.
+From BU Require Import Merkle.Merkle Merkle.ExtractTop NoPanic.MerkleNP Bloom.Bloom NoPanic.BloomNP.
+From BU Require Import Gcs.Gcs NoPanic.GcsNP.
 
 (* ---------------- CashAddr: DecodeCashAddress, encode ---------------- *)
 Theorem C08_DecodeCashAddress_no_panic : forall str, is_panic (decode_cashaddr str) = false.
@@ -114,6 +116,80 @@ Theorem C08_NewKeyFromString_bounds :
     forall s, HDNP.parse_checked point parse_point dsha s = HD.parse point parse_point dsha s.
 Proof. exact HDNP.parse_checked_eq. Qed.
 Print Assumptions C08_NewKeyFromString_bounds.
+
+(* ---------------- bloom filter queries on any filter-load within the wire limits (model: Bloom/Bloom.v, a-c09) ------- *)
+(* Filter.matches / Filter.add with checked `%` (Panic 3) and checked indexing (Panic 1) equal the
+   model for every array shorter than 2^29 bytes, the EMPTY array included *)
+Theorem C08_bloom_matches_bounds : forall f data, len_ok f -> BloomNP.matches_checked true f data = Ok (matches f data).
+Proof. exact BloomNP.matches_checked_eq. Qed.
+Print Assumptions C08_bloom_matches_bounds.
+
+Theorem C08_bloom_add_bounds : forall f data, len_ok f -> BloomNP.add_checked true f data = Ok (add f data).
+Proof. exact BloomNP.add_checked_eq. Qed.
+Print Assumptions C08_bloom_add_bounds.
+
+Theorem C08_bloom_no_panic : forall m data, within_wire_limits m ->
+  is_panic (BloomNP.matches_checked true (Some m) data) = false /\
+  is_panic (BloomNP.add_checked true (Some m) data) = false.
+Proof. exact BloomNP.bloom_no_panic. Qed.
+Print Assumptions C08_bloom_no_panic.
+
+(* before commit 9cfd8f5: Filter = {}, HashFuncs = 1 divides by zero, for every data item *)
+Theorem C08_bloom_old_refuted : forall data,
+  BloomNP.matches_checked false (Some BloomNP.empty_load) data = Panic 3 /\
+  BloomNP.add_checked false (Some BloomNP.empty_load) data = Panic 3.
+Proof. exact BloomNP.bloom_old_refuted. Qed.
+Print Assumptions C08_bloom_old_refuted.
+
+(* ---------------- merkle extraction on any message (model: Merkle/Merkle.v, a-c11) ---------------- *)
+Theorem C08_ExtractMatches_no_panic : forall node_hash maxtx (m : Merkle.msg),
+  maxtx < 2 ^ 31 -> is_panic (extract node_hash maxtx m) = false.
+Proof. exact MerkleNP.extract_no_panic. Qed.
+Print Assumptions C08_ExtractMatches_no_panic.
+
+(* merkle_cost: traverseAndExtract is entered at most 2*|bits|+1 times, whatever the message claims *)
+Theorem C08_merkle_cost : forall node_hash maxtx (m : Merkle.msg),
+  (extract_calls node_hash maxtx m <= 2 * (8 * length (Merkle.m_flags m)) + 1)%nat.
+Proof. exact ExtractTop.extract_cost. Qed.
+Print Assumptions C08_merkle_cost.
+
+(* ---------------- GCS filters: parsing and queries on any (N, P, M, bytes) (model: Gcs/Gcs.v, a-c13) ---------------- *)
+(* siphash and sort.Slice are dependencies: arbitrary functions *)
+Theorem C08_gcs_parse_no_panic : forall n P M d,
+  is_panic (from_bytes n P M d) = false /\ is_panic (from_nbytes P M d) = false.
+Proof. intros n P M d. split; [exact (GcsNP.from_bytes_no_panic n P M d) | exact (GcsNP.from_nbytes_no_panic P M d)]. Qed.
+Print Assumptions C08_gcs_parse_no_panic.
+
+(* the decoding loops never run out of their fuel 8*|bytes|+1 (every read consumes a bit): the four
+   query forms return on every filter, whatever element count it claims *)
+Theorem C08_gcs_queries_no_panic : forall hash sort f key d data,
+  is_panic (gmatch hash f key d) = false /\
+  is_panic (zip_match_any hash sort f key data) = false /\
+  is_panic (hash_match_any hash f key data) = false /\
+  is_panic (match_any hash sort f key data) = false.
+Proof.
+  intros hash sort f key d data.
+  exact (conj (GcsNP.match_no_panic hash f key d)
+        (conj (GcsNP.zip_match_any_no_panic hash sort f key data)
+        (conj (GcsNP.hash_match_any_no_panic hash f key data)
+              (GcsNP.match_any_no_panic hash sort f key data)))).
+Qed.
+Print Assumptions C08_gcs_queries_no_panic.
+
+(* gcs_alloc: the capacity HashMatchAny pre-sizes its table with is at most 8*|bytes|/(P+1), and the
+   table receives at most 8*|bytes| values; neither depends on the claimed N *)
+Theorem C08_gcs_alloc_bound : forall f,
+  size_hint f <= 8 * N.of_nat (length (f_data f)) / (f_p f + 1) /\
+  exists vs, decode_all (fuel_of f) (f_p f) (bits_of_bytes (f_data f)) 0 = Ok vs /\
+             (length vs <= 8 * length (f_data f))%nat.
+Proof. intro f. split; [exact (GcsNP.size_hint_bound f) | exact (GcsNP.decoded_values_bound f)]. Qed.
+Print Assumptions C08_gcs_alloc_bound.
+
+Theorem C08_gcs_alloc_old_refuted :
+  exists f d, from_nbytes 19 784931 d = Ok f /\ length d = 7%nat /\
+              8 * N.of_nat (length (f_data f)) / (f_p f + 1) < 1000 * 1000 * 1000 < GcsNP.size_hint_old f.
+Proof. exact GcsNP.size_hint_old_refuted. Qed.
+Print Assumptions C08_gcs_alloc_old_refuted.
 
 (* the statements are not vacuous: a 5-bit payload encodes, and the resulting string decodes back
    (so the no-panic theorems cover the accepting path as well as the rejecting ones) *)
